@@ -12,7 +12,7 @@ use serde_json::json;
 
 pub const ID: &str = "C07";
 
-pub const RULE: &str = "cases = (grammar, input, input kind): C01/C02-class grammars in which EVERY node is wrapped in map_with(|v, e| e.span()) and which contain the other capture sites at random nodes -- to_span, to_slice, map_with(slice), try_map (span argument), try_map_with / validate (e.span()), select!(.. => e.span()), foldl_with / foldr_with callbacks -- over the input kinds &str (1..4-byte characters), &[char], Stream, and token-with-span inputs with GAPPED spans: slice.map(eoi, ..), Stream::map(eoi, ..) and IterInput (Input-only: just / end / empty and combinators), incl. eoi spans beyond the last token. Oracle: the reference knows the token range [s, e) each node consumed on the successful path; expected span = byte offsets for &str, indices for slices / streams, tok[s].start .. tok[e-1].end for token-span inputs; an EMPTY match must get an empty span lying between the end of the preceding and the start of the following token (input start / eoi at the borders). Oracle-free, on every span in the output: start <= end, inside the input, on char boundaries, non-empty children nested in their parent. Slices: content == input[span], length equal, and slice.as_ptr() == input.as_ptr() + start (same memory, no copy). NON-TRIVIAL = an empty match strictly between two tokens, or a capture evaluated after a backtrack over consumed input, or multi-byte text, or a gapped token-span input; distinct = distinct (sub-check, grammar, input, spans).";
+pub const RULE: &str = "cases = (grammar, input, input kind): C01/C02-class grammars in which EVERY node is wrapped in map_with(|v, e| e.span()) and which contain the other capture sites at random nodes -- to_span, to_slice, map_with(slice), try_map (span argument), try_map_with / validate (e.span()), select!(.. => e.span()), foldl_with / foldr_with callbacks -- over the input kinds &str (1..4-byte characters), &[char], Stream, and token-with-span inputs with GAPPED spans: slice.map(eoi, ..), Stream::map(eoi, ..) and IterInput (Input-only: just / end / empty and combinators), incl. eoi spans beyond the last token. Oracle: the reference knows the token range [s, e) each node consumed on the successful path; expected span = byte offsets for &str, indices for slices / streams, tok[s].start .. tok[e-1].end for token-span inputs; an EMPTY match must get an empty span lying between the end of the preceding and the start of the following token (input start / eoi at the borders). Oracle-free, on every span in the output: start <= end, inside the input, on char boundaries, non-empty children nested in their parent. Slices: content == input[span], length equal, and slice.as_ptr() == input.as_ptr() + start (same memory, no copy). Statically typed families: bytes::Bytes as the input (5 parsers with slice captures x every byte string over {a b c} up to length 6 / 8: differential against &[u8] plus pointer identity on both) and map_with applied to an item source (x.repeated().map_with(f) under collect / enumerate / foldl_with / foldr_with on every string over {a b e-acute G-clef} up to length 5 / 6 and on a gapped token-span input: the mapper sees the span and slice of each step). NON-TRIVIAL = an empty match strictly between two tokens, or a capture evaluated after a backtrack over consumed input, or multi-byte text, or a gapped token-span input; distinct = distinct (sub-check, grammar, input, spans).";
 
 pub const ASSUMPTIONS: &[&str] = &[
     "the reference's consumed extents (C01 ties them to PEG semantics); fold_with callbacks: foldl_with sees the span from the start of the whole fold to the end of the current item, foldr_with from the current item('s step) to the end of the tail",
@@ -202,6 +202,13 @@ pub fn check_case(case: &Case, l: &mut Local) -> Result<(), Fail> {
         c.sub = "exh".into();
         return super::c09::check_case(&c, l).map_err(|f| Fail::new(f.sig.replace("C09/", "C07/pratt-"), f.msg));
     }
+    if case.sub == "bytes-static" {
+        let bytes: Vec<u8> = case.toks().iter().map(|c| *c as u8).collect();
+        return bytes_case(&bytes, l).map_err(|(_, f)| f);
+    }
+    if case.sub == "itermap-static" {
+        return iter_map_with_case(&case.input, l).map_err(|(_, f)| f);
+    }
     let seed = case.extra.get("gap_seed").and_then(|p| p.as_u64()).unwrap_or(1);
     check_inner(&case.sub, &case.g, &case.toks(), seed, l).map_err(|(_, f)| f)
 }
@@ -272,6 +279,226 @@ pub fn templates(value: bool, slices: bool) -> Vec<G> {
     out
 }
 
+
+// ---------------------------------------------------------------------------------------------
+// statically typed families for capture sites the grammar AST does not contain:
+//  (a) `bytes::Bytes` as the input (feature `bytes`): its slices are reference-counted views, which must
+//      still be the caller's memory;  (b) `map_with` applied to an ITEM SOURCE (`x.repeated().map_with(f)`
+//      consumed by collect / enumerate / foldl_with / foldr_with): `MapWith`'s IterParser implementation
+//      hands `f` the span and slice of each step.
+
+type EB<'a, I> = chumsky::extra::Err<chumsky::error::Rich<'a, u8, <I as chumsky::input::Input<'a>>::Span>>;
+/// one capture: span, slice as (address, length), slice content
+type Cap = ((usize, usize), (usize, usize), Vec<u8>);
+
+fn byte_family<'a, I>() -> Vec<(&'static str, chumsky::Boxed<'a, 'a, I, Vec<Cap>, EB<'a, I>>)>
+where
+    I: chumsky::input::ValueInput<'a, Token = u8, Span = SimpleSpan> + chumsky::input::SliceInput<'a> + 'a,
+    I::Slice: AsRef<[u8]> + Clone + 'a,
+{
+    use chumsky::prelude::*;
+    fn cap<S: AsRef<[u8]>>(sp: SimpleSpan, sl: &S) -> Cap {
+        let b: &[u8] = sl.as_ref();
+        ((sp.start, sp.end), (b.as_ptr() as usize, b.len()), b.to_vec())
+    }
+    let word = || one_of::<_, I, EB<'a, I>>([b'a', b'c']).repeated().at_least(1).to_slice().map_with(|s: I::Slice, e| cap(e.span(), &s));
+    vec![
+        ("word.separated_by(just(b'b')).collect()", word().separated_by(just(b'b')).allow_trailing().collect::<Vec<Cap>>().boxed()),
+        (
+            "any().then(any().or_not()).map_with(slice).repeated()",
+            any::<I, EB<'a, I>>().then(any().or_not()).map_with(|_, e| { let s: I::Slice = e.slice(); cap(e.span(), &s) }).repeated().collect::<Vec<Cap>>().boxed(),
+        ),
+        (
+            "just(a).then(just(c)).to_slice().or(just(a).to_slice()) after a backtrack",
+            just::<_, I, EB<'a, I>>(b'a').then(just(b'c')).to_slice().or(just(b'a').to_slice()).map_with(|s: I::Slice, e| cap(e.span(), &s)).repeated().collect::<Vec<Cap>>().boxed(),
+        ),
+        (
+            "any().repeated().at_most(2).to_slice() then the rest as a slice",
+            any::<I, EB<'a, I>>()
+                .repeated()
+                .at_most(2)
+                .to_slice()
+                .map_with(|s: I::Slice, e| cap(e.span(), &s))
+                .then(any().repeated().to_slice().map_with(|s: I::Slice, e| cap(e.span(), &s)))
+                .map(|(x, y)| vec![x, y])
+                .boxed(),
+        ),
+        (
+            "nested: (a-run.to_slice(), inner slices) inside an outer to_slice",
+            just::<_, I, EB<'a, I>>(b'a')
+                .repeated()
+                .to_slice()
+                .map_with(|s: I::Slice, e| cap(e.span(), &s))
+                .then(just(b'b').or_not().to_slice().map_with(|s: I::Slice, e| cap(e.span(), &s)))
+                .map_with(|(x, y), e| { let s: I::Slice = e.slice(); vec![x, y, cap(e.span(), &s)] })
+                .then_ignore(any().repeated())
+                .boxed(),
+        ),
+    ]
+}
+
+fn bytes_case(s: &[u8], l: &mut Local) -> CaseRes {
+    use chumsky::Parser;
+    let toks: Vec<char> = s.iter().map(|b| *b as char).collect();
+    let case = |name: &str| {
+        let mut c = Case::new(ID, "bytes-static", &G::Empty, &toks);
+        c.extra = json!({ "parser": name });
+        c
+    };
+    let owned = bytes::Bytes::copy_from_slice(s);
+    let base_b = owned.as_ref().as_ptr() as usize;
+    let base_s = s.as_ptr() as usize;
+    let fam_s = byte_family::<&[u8]>();
+    let fam_b = byte_family::<bytes::Bytes>();
+    for ((name, ps), (_, pb)) in fam_s.iter().zip(fam_b.iter()) {
+        let r = quietly(|| {
+            let (a, ea) = ps.parse(s).into_output_errors();
+            let (b, eb) = pb.parse(owned.clone()).into_output_errors();
+            (a, ea.len(), b, eb.len())
+        });
+        l.evals += 2;
+        let Ok((a, ea, b, eb)) = r else {
+            return Err((case(name), Fail::new("C07/panic", format!("{} panicked on {:?}", name, toks))));
+        };
+        // (1) every capture, on both kinds: the slice is the caller's memory at the span
+        for (kind, base, out) in [("&[u8]", base_s, &a), ("Bytes", base_b, &b)] {
+            for ((st, en), (ptr, len), content) in out.iter().flatten() {
+                if st > en || *en > s.len() {
+                    return Err((case(name), Fail::new("C07/span-malformed", format!("{} over {}: span {}..{} on an input of {} bytes", name, kind, st, en, s.len()))));
+                }
+                if *len != en - st || content.as_slice() != &s[*st..*en] {
+                    return Err((case(name), Fail::new("C07/slice", format!("{} over {}: slice {:?} (len {}) for span {}..{} of {:?}", name, kind, content, len, st, en, toks))));
+                }
+                if *len > 0 && *ptr != base + st {
+                    return Err((case(name), Fail::new("C07/slice-copied", format!("{} over {}: the slice for span {}..{} lies at offset {} of the caller's buffer (must be the same memory at offset {})", name, kind, st, en, (*ptr as isize) - (base as isize), st))));
+                }
+                l.bump("byte_slices_checked");
+            }
+        }
+        // (2) the two kinds agree on acceptance, spans and contents
+        let strip = |o: &Option<Vec<Cap>>| o.as_ref().map(|v| v.iter().map(|(sp, (_, n), c)| (*sp, *n, c.clone())).collect::<Vec<_>>());
+        if strip(&a) != strip(&b) || ea != eb {
+            return Err((case(name), Fail::new("C07/bytes-vs-slice", format!("{} on {:?}: &[u8] gives {:?} ({} errors), Bytes gives {:?} ({} errors)", name, toks, strip(&a), ea, strip(&b), eb))));
+        }
+        if b.is_some() {
+            l.bump("bytes_input_accepted");
+        }
+    }
+    Ok(())
+}
+
+type ES<'a> = chumsky::extra::Err<chumsky::error::Rich<'a, char>>;
+type SpCap = ((usize, usize), (usize, usize));
+
+fn iter_map_with_case(s: &str, l: &mut Local) -> CaseRes {
+    use chumsky::prelude::*;
+    let toks: Vec<char> = s.chars().collect();
+    let case = |name: &str| {
+        let mut c = Case::new(ID, "itermap-static", &G::Empty, &toks);
+        c.extra = json!({ "parser": name });
+        c
+    };
+    let base = s.as_ptr() as usize;
+    // byte extents of the items the reference loop takes: `ab` else `a`, greedily
+    let mut ab_items: Vec<(usize, usize)> = vec![];
+    {
+        let mut p = 0;
+        loop {
+            if s[p..].starts_with("ab") {
+                ab_items.push((p, p + 2));
+                p += 2;
+            } else if s[p..].starts_with('a') {
+                ab_items.push((p, p + 1));
+                p += 1;
+            } else {
+                break;
+            }
+        }
+    }
+    let chars: Vec<(usize, usize)> = s.char_indices().map(|(i, c)| (i, i + c.len_utf8())).collect();
+    fn capf<'a, 'b>(e: &mut chumsky::input::MapExtra<'a, 'b, &'a str, ES<'a>>, base: usize) -> SpCap {
+        let sp = e.span();
+        let sl: &str = e.slice();
+        ((sp.start, sp.end), (sl.as_ptr() as usize - base, sl.len()))
+    }
+    let want_caps = |items: &[(usize, usize)]| -> Vec<SpCap> { items.iter().map(|(a, b)| ((*a, *b), (*a, b - a))).collect() };
+    macro_rules! run {
+        ($name:expr, $p:expr, $want:expr) => {{
+            let name: &str = $name;
+            let p = $p;
+            for check in [false, true] {
+                let r = quietly(|| if check { p.check(s).has_output().then(|| None) } else { p.parse(s).into_output().map(Some) });
+                l.evals += 1;
+                let Ok(got) = r else {
+                    return Err((case(name), Fail::new("C07/panic", format!("{} panicked on {:?}", name, s))));
+                };
+                let want = $want;
+                match (got, &want) {
+                    (Some(Some(g)), Some(w)) if &g != w => {
+                        return Err((case(name), Fail::new("C07/iter-map-with-span", format!("{} on {:?}: the mapper of map_with over an item source saw {:?}, the steps consumed {:?} [(span), (slice offset, length)]", name, s, g, w))));
+                    }
+                    (Some(_), None) | (None, Some(_)) => {
+                        return Err((case(name), Fail::new("C07/accept", format!("{} on {:?} ({}): accepted = {} but the item loop {}", name, s, if check { "check" } else { "parse" }, want.is_none(), if want.is_some() { "matches the whole input" } else { "does not" }))));
+                    }
+                    _ => {}
+                }
+                l.bump("iter_map_with_runs");
+            }
+        }};
+    }
+    let all_chars = Some(want_caps(&chars));
+    run!("any().ignored().repeated().map_with(span+slice).collect()", any::<&str, ES>().ignored().repeated().map_with(move |(), e| capf(e, base)).collect::<Vec<SpCap>>(), all_chars.clone());
+    run!(
+        "any().ignored().repeated().map(unit).map_with(span+slice).enumerate().collect()",
+        any::<&str, ES>().ignored().repeated().map(|()| ()).map_with(move |(), e| capf(e, base)).enumerate().collect::<Vec<(usize, SpCap)>>().map(|v| {
+            assert!(v.iter().enumerate().all(|(i, (k, _))| i == *k), "enumerate indices");
+            v.into_iter().map(|(_, c)| c).collect::<Vec<SpCap>>()
+        }),
+        all_chars.clone()
+    );
+    let ab_end = ab_items.last().map(|x| x.1).unwrap_or(0);
+    run!(
+        "(ab | a).ignored().repeated().map_with(span+slice).collect().then_ignore(rest)",
+        just::<_, &str, ES>("ab").ignored().or(just('a').ignored()).repeated().map_with(move |(), e| capf(e, base)).collect::<Vec<SpCap>>().then_ignore(any().repeated()),
+        Some(want_caps(&ab_items))
+    );
+    run!(
+        "empty().foldl_with((ab | a).ignored().repeated().map_with(span), push (item, fold span))",
+        empty::<&str, ES>().to(Vec::<SpCap>::new()).foldl_with(just("ab").ignored().or(just('a').ignored()).repeated().map_with(|(), e| e.span()), |mut acc, sp: SimpleSpan, e| {
+            let f = e.span();
+            acc.push(((sp.start, sp.end), (f.start, f.end)));
+            acc
+        })
+        .then_ignore(any().repeated()),
+        Some(ab_items.iter().map(|(a, b)| ((*a, *b), (0usize, *b))).collect::<Vec<SpCap>>())
+    );
+    run!(
+        "(ab | a).ignored().repeated().map_with(span).foldr_with(rest, push (item, fold span))",
+        just::<_, &str, ES>("ab").ignored().or(just('a').ignored()).repeated().map_with(|(), e| e.span()).foldr_with(any().repeated().to(Vec::<SpCap>::new()), |sp: SimpleSpan, mut acc, e| {
+            let f = e.span();
+            acc.push(((sp.start, sp.end), (f.start, f.end)));
+            acc
+        }),
+        Some(ab_items.iter().rev().map(|(a, b)| ((*a, *b), (*a, s.len()))).collect::<Vec<SpCap>>())
+    );
+    let _ = ab_end;
+    // the same over a token input whose tokens carry their own, gapped, spans
+    let (spans, eoi) = gapped(toks.len(), 1 + toks.len() as u64);
+    let tv: Vec<SpTok> = toks.iter().zip(&spans).map(|(c, sp)| (*c, SimpleSpan::from(sp.0..sp.1))).collect();
+    let sl: &[SpTok] = &tv;
+    type ET<'a> = chumsky::extra::Err<chumsky::error::Rich<'a, char, SimpleSpan>>;
+    let p = any::<SpSlice, ET>().ignored().repeated().map_with(|(), e| { let sp: SimpleSpan = e.span(); (sp.start, sp.end) }).collect::<Vec<(usize, usize)>>();
+    let r = quietly(|| p.parse(sp_slice(sl, eoi)).into_output());
+    l.evals += 1;
+    match r {
+        Ok(Some(got)) if got == spans => l.bump("iter_map_with_runs"),
+        other => {
+            return Err((case("any().ignored().repeated().map_with(span).collect() over slice.map(eoi, (tok, span))"), Fail::new("C07/iter-map-with-span", format!("token spans {:?}: the mapper saw {:?}", spans, other))));
+        }
+    }
+    Ok(())
+}
+
 pub fn decode(tape: &[u32]) -> (G, Vec<char>, &'static str, u64) {
     let mut t = Tape::new(tape);
     let kind = ["str", "str", "slice", "stream", "spslice", "spslice", "spstream", "spiter"][t.pick(8)];
@@ -323,6 +550,23 @@ pub fn run(tier: Tier, seed: u64) -> i32 {
     ctx.with_local(|l| {
         l.add("strings_per_template", strings.len() as u64);
         l.add("multibyte_strings_per_template", strings_mb.len() as u64);
+    });
+    // statically typed families: Bytes as the input kind; map_with over item sources
+    let bstrings: Vec<Vec<u8>> = all_strings(&['a', 'b', 'c'], ctx.pick(6, 8)).into_iter().map(|v| v.into_iter().map(|c| c as u8).collect()).collect();
+    let bchunks: Vec<&[Vec<u8>]> = bstrings.chunks(200).collect();
+    ctx.par_jobs(&bchunks, |ch, l| {
+        for s in ch.iter() {
+            bytes_case(s, l)?;
+        }
+        Ok(())
+    });
+    let istrings: Vec<String> = all_strings(&['a', 'b', 'é', '𝄞'], ctx.pick(5, 6)).into_iter().map(|v| v.into_iter().collect()).collect();
+    let ichunks: Vec<&[String]> = istrings.chunks(200).collect();
+    ctx.par_jobs(&ichunks, |ch, l| {
+        for s in ch.iter() {
+            iter_map_with_case(s, l)?;
+        }
+        Ok(())
     });
     // Pratt prefix / postfix / infix fold callbacks: the span and slice they see must be exactly the
     // sub-expression being built (tuple, Vec and boxed operator tables); C09's machinery, reported here
